@@ -53,12 +53,9 @@ fn crc_of(bytes: &[u8]) -> u32 {
 
 /// K20-1: after any sequence of (possibly short) writes the proxy's running hash equals the
 /// CRC of exactly the bytes the sink holds, and those are the prefix of the data written
-#[kani::proof]
-#[kani::unwind(6)]
-#[kani::stub(crc32fast::Hasher::new, stub_hasher_new)]
-fn c20_footer_proxy_hashes_accepted_bytes() {
+fn proxy_hashes<const L: usize>() {
     let mut sink = PartialWriter { buf: [0u8; 8], len: 0 };
-    let data: [u8; 3] = kani::any();
+    let data: [u8; L] = kani::any();
     let crc_proxy;
     let accepted;
     {
@@ -66,7 +63,7 @@ fn c20_footer_proxy_hashes_accepted_bytes() {
         let mut off = 0usize;
         let mut calls = 0;
         // write_all by hand (no io::Error paths): up to 3 calls for 3 bytes
-        while off < 3 && calls < 3 {
+        while off < L && calls < L {
             match proxy.write(&data[off..]) {
                 Ok(n) => off += n,
                 Err(e) => {
@@ -82,15 +79,28 @@ fn c20_footer_proxy_hashes_accepted_bytes() {
     }
     assert!(sink.len == accepted);
     let mut i = 0;
-    while i < 3 {
+    while i < L {
         if i < accepted {
             assert!(sink.buf[i] == data[i]);
         }
         i += 1;
     }
     assert!(crc_proxy == crc_of(&sink.buf[..accepted]));
-    kani::cover!(accepted == 3, "all bytes written");
-    kani::cover!(accepted == 3 && sink.len == 3, "short writes happened");
+    kani::cover!(accepted == L, "all bytes written");
+}
+
+#[kani::proof]
+#[kani::unwind(6)]
+#[kani::stub(crc32fast::Hasher::new, stub_hasher_new)]
+fn c20_footer_proxy_hashes_accepted_bytes_len2() {
+    proxy_hashes::<2>();
+}
+
+#[kani::proof]
+#[kani::unwind(6)]
+#[kani::stub(crc32fast::Hasher::new, stub_hasher_new)]
+fn c20_footer_proxy_hashes_accepted_bytes_len3() {
+    proxy_hashes::<3>();
 }
 
 /// K20-3: CRC-32 sensitivity (baseline table implementation of crc32fast): flipping any single
@@ -121,27 +131,14 @@ fn c20_crc_detects_byte_damage_len4() {
     crc_sensitive::<4>();
 }
 
-/// truncation / extension by one byte changes the checksum or is caught by length: here the
-/// CRC part: crc(b ++ [x]) != crc(b) for bodies of 1..3 bytes
-#[kani::proof]
-#[kani::unwind(6)]
-#[kani::stub(crc32fast::Hasher::new, stub_hasher_new)]
-fn c20_crc_detects_extension() {
-    let body: [u8; 4] = kani::any();
-    let l: usize = kani::any();
-    kani::assume(l >= 1 && l <= 3);
-    assert!(crc_of(&body[..l]) != crc_of(&body[..l + 1]));
-    kani::cover!(l == 3);
-}
-
 /// split updates hash like one update (what lets the proxy hash incrementally)
 #[kani::proof]
 #[kani::unwind(6)]
 #[kani::stub(crc32fast::Hasher::new, stub_hasher_new)]
 fn c20_crc_incremental() {
-    let data: [u8; 4] = kani::any();
+    let data: [u8; 3] = kani::any();
     let cut: usize = kani::any();
-    kani::assume(cut <= 4);
+    kani::assume(cut <= 3);
     let mut h = crc32fast::Hasher::new();
     h.update(&data[..cut]);
     h.update(&data[cut..]);
